@@ -96,6 +96,11 @@ class CallMixin:
             return SV(v.ty.len(v.t), T.Int)
         if isinstance(v.ty, T.Tup):
             return SV(z3.IntVal(len(v.ty.items)), T.Int)
+        if isinstance(v.ty, T.Union) and all(isinstance(a, T.Tup) for a in v.ty.alts.values()):
+            r = z3.IntVal(-1)
+            for tag, aty in v.ty.alts.items():
+                r = z3.If(v.ty.is_(tag, v.t), z3.IntVal(len(aty.items)), r)
+            return SV(r, T.Int)
         if isinstance(v.ty, T.Set):
             return self.card(st, v)
         if isinstance(v.ty, T.Map):
@@ -256,6 +261,12 @@ class CallMixin:
 
     def set_to_seq(self, st, s):
         """An arbitrary duplicate-free enumeration of a finite set."""
+        if z3.is_quantifier(s.t) or not z3.is_app(s.t) or s.t.num_args() > 0 and z3.is_quantifier(s.t):
+            # a set given by comprehension (a lambda term): name it, so that membership can serve as a trigger
+            named = fresh(s.ty, "setc")
+            y = z3.Const(fresh_name("y"), s.ty.elem.sort())
+            st.assume(z3.ForAll([y], z3.Select(named.t, y) == z3.Select(s.t, y), patterns=[z3.Select(named.t, y)]))
+            s = named
         sty = T.Seq(s.ty.elem)
         r = fresh(sty, "enum")
         arr, n = sty.arr(r.t), sty.len(r.t)
@@ -579,6 +590,20 @@ class CallMixin:
                 return SV(z3.If(present, o.some(z3.Select(val, k.t)), o.none()), o)
             if meth == "keys":
                 return SV(dom, T.Set(ty.key))
+            if meth == "values" and not node.args:
+                # the values in some order: one entry per key (enumeration of the key set, mapped)
+                ks = self.set_to_seq(st, SV(dom, T.Set(ty.key)))
+                kt = ks.ty
+                vt = T.Seq(ty.val)
+                r = fresh(vt, "values")
+                j = z3.Int(fresh_name("j"))
+                st.assume(vt.len(r.t) == kt.len(ks.t))
+                st.assume(z3.ForAll([j], z3.Implies(z3.And(0 <= j, j < vt.len(r.t)), z3.Select(vt.arr(r.t), j) == z3.Select(val, z3.Select(kt.arr(ks.t), j))), patterns=[z3.Select(vt.arr(r.t), j)]))
+                self.last_values_keys = ks  # ghost access to the enumeration order (spec function values_key)
+                return r
+            if meth == "clear" and not node.args:
+                writeback(SV(ty.mk(T.Set(ty.key).empty(), val), ty))
+                return SV(T.NoneT.value(), T.NoneT)
             if meth == "pop":
                 k = self.ev(node.args[0], st, ty.key)
                 if len(node.args) == 1:
